@@ -140,7 +140,7 @@ type cliOpen struct {
 
 type cliLock struct {
 	fh, t, q int
-	ok     string // open-owner through which the lock state was created
+	ok       string // open-owner through which the lock state was created
 }
 
 type cliOO struct {
